@@ -178,9 +178,9 @@ func (s *c38Store) ReadAll() (<-chan persistence.DataDescriptor, <-chan error) {
 // ---- key material ------------------------------------------------------------
 
 type c38Keys struct {
-	walletKeys []*ecdsa.PublicKey       // wallets 0..2 plus one never registered (3)
-	signers    map[[3]int]*signer       // (wallet, member index, variant)
-	bytes      map[[3]int][]byte        // their marshalled form at build time
+	walletKeys []*ecdsa.PublicKey // wallets 0..2 plus one never registered (3)
+	signers    map[[3]int]*signer // (wallet, member index, variant)
+	bytes      map[[3]int][]byte  // their marshalled form at build time
 }
 
 var (
